@@ -283,6 +283,10 @@ def case_for(prop, tier, seed, idx):
                 o["pre"] = [rng.choice(["garbage", "empty", "wrong-type"])]
             elif r < 0.28:
                 o["pre"] = ["peek", rng.choice(["garbage", "wrong-type"])]
+    if case["machine"] != "M-CD" and "cwd" not in case["cfg"] and rng.random() < 0.1:
+        # the tool runs INSIDE the directory that holds the metadata: every file there is addressed by a relative path
+        case["cfg"]["cwd"] = "/sim/d"
+        case["cfg"]["rel_form"] = rng.choice(["bare", "bare", "dot"])
     if case["machine"] in ("M-CI", "M-IM", "M-RP", "M-MO", "M-XF") and rng.random() < 0.15:
         # the stored document was re-saved by another tool before one of the restarts: other key order, same content
         idxs = [i for i, o in enumerate(case["ops"]) if o.get("op") == "restart"]
